@@ -46,9 +46,9 @@ def run_stv_case(case):
     """Run on the implementation; return (info dict, model call)."""
     info = rules.run_election(case)
     nm, rec, el, prof = info["nm"], info["rec"], info["election"], info["profile"]
-    script, calls = rules.script_from_log(nm, rec.log)
     if isinstance(prof, Err):
         return info, None
+    script, calls = rules.script_from_log(nm, rec.log, order=list(prof.candidates))
     arg = [rules.stv_cfg_val(case["rule"], case["cfg"]), vk.jp_val(nm, case["profile"], cands=list(prof.candidates)), script]
     if isinstance(el, Err):
         expect = el
